@@ -24,6 +24,9 @@ type (
 const (
 	SYS_RECVMMSG         = unix.SYS_RECVMMSG
 	SYS_SENDMMSG         = unix.SYS_SENDMMSG
+	SYS_RECVFROM         = unix.SYS_RECVFROM
+	MSG_PEEK             = unix.MSG_PEEK
+	MSG_DONTWAIT         = unix.MSG_DONTWAIT
 	EAGAIN               = unix.EAGAIN
 	EBADF                = unix.EBADF
 	ENOSYS               = unix.ENOSYS
@@ -45,12 +48,26 @@ type mmsghdr struct {
 }
 
 func Syscall6(trap, a1, a2, a3, a4, a5, a6 uintptr) (r1, r2 uintptr, err unix.Errno) {
-	if a1 < verifsrvnet.FDBase || (trap != unix.SYS_RECVMMSG && trap != unix.SYS_SENDMMSG) {
+	if a1 < verifsrvnet.FDBase || (trap != unix.SYS_RECVMMSG && trap != unix.SYS_SENDMMSG && trap != unix.SYS_RECVFROM) {
 		return unix.Syscall6(trap, a1, a2, a3, a4, a5, a6)
 	}
 	s := verifsrvnet.Lookup(a1)
 	if s == nil {
 		return 0, 0, unix.EBADF
+	}
+	if trap == unix.SYS_RECVFROM {
+		// only the non-consuming, non-blocking form is simulated: "is a datagram queued?"
+		if a4&unix.MSG_PEEK == 0 || a4&unix.MSG_DONTWAIT == 0 {
+			return 0, 0, unix.EINVAL
+		}
+		n, errno := s.Pending()
+		if errno != 0 {
+			return 0, 0, unix.Errno(errno)
+		}
+		if n == 0 {
+			return 0, 0, unix.EAGAIN
+		}
+		return 1, 0, 0
 	}
 	vlen := int(a3)
 	if vlen <= 0 {
